@@ -12,6 +12,7 @@ import (
 	"strings"
 
 	"github.com/mimiro-io/datahub/internal/jobs"
+	"github.com/mimiro-io/datahub/internal/jobs/source"
 	"github.com/mimiro-io/datahub/internal/server"
 )
 
@@ -48,6 +49,8 @@ type Session struct {
 	commit     map[int]int64     // commit[k]: real commit time of the write that moved the clock to k
 	ids        map[string]uint64 // abstract entity -> internal id (learned from writes)
 	tokens     map[int]uint64    // reader id -> real token
+	msSrc      source.Source     // MultiSource of the job while its first (full) run is read page by page
+	msTok      string            // its continuation token, encoded as the pipeline stores it
 	cursors    []relCursor       // relationship queries whose first page was served before the last step
 	Divs       []Divergence
 	Checks     int // number of compared answers
@@ -428,6 +431,10 @@ func (s *Session) Step(st *Step) error {
 			s.diverge("step-answer", map[string]any{"index": len(s.Answers) - 1, "step": st.A, "id": st.ID, "start": st.Start, "end": st.End, "b": st.B}, exp, act, "")
 		}
 		return nil
+	case "fsstart", "fspage", "fsend":
+		if err := s.msFullSyncStep(st); err != nil {
+			return err
+		}
 	case "catchup":
 		return s.catchUp(st)
 	case "job":
